@@ -196,7 +196,7 @@ def _mk(cls_name, label, flat, **kw):
     stage2 = kw.pop("stage2", False)
     UNITS.append(Unit(
         "%s._delegate_resolved[%s]" % (cls_name, label), "map.MapFuture._delegate_resolved",
-        ["C13", "C01", "C03", "C12", "C18", "C16"],
+        ["C13", "C01", "C03", "C12", "C18", "C16", "C02", "C04", "C06"],
         _setup_resolved(cls_name, **kw), _with_c16(_post_stage2 if stage2 else _post_stage1(flat)), cfg=_cfg, self_cls=cls_name))
 
 
@@ -323,5 +323,5 @@ def _setup_falsy(engine, st):
     return args, kw, ctx
 
 
-UNITS.append(Unit("MapFuture._delegate_resolved[failed input, falsy exception object]", "map.MapFuture._delegate_resolved", ["C13", "C01", "C18"],
+UNITS.append(Unit("MapFuture._delegate_resolved[failed input, falsy exception object]", "map.MapFuture._delegate_resolved", ["C13", "C01", "C18", "C02", "C03", "C04", "C12"],
                   _setup_falsy, _post_stage1(False), cfg=_cfg_falsy, self_cls="MapFuture"))
